@@ -290,8 +290,54 @@ def run(tier, seed):
         if name.startswith("invalid") and (wrote or so.strip()):
             chk.spec_violations.append({"stream": "cli-contract", "case": name, "stats_file_written": wrote, "stdout": so.decode("utf8", "replace")[:200],
                                         "what": "output written although the option combination is invalid"})
-    # ---- the modes that print no report (views; filtered data to stdout): the exit status still follows what was collected
+    # ---- a statistics file that disagrees with the run in the error section only: a reported mismatch -> exit N, muted or not
     import json as _json
+    mj = []
+    for s in range(ninputs):
+        jb = next((j for j in jobs if j["s"] == s), None)
+        if jb is None or jb["kind"] in ("non-alice", "fatal-midstream", "unknown-system-id"):
+            continue
+        mj.append({"s": s, "kind": jb["kind"], "data": jb["data"], "mode": rng.choice([["check", "sanity"], ["check", "all"], ["check", "all", "its"]]),
+                   "ee": rng.choice([3, 57, 255]), "edit": rng.choice(["total_errors", "unique_error_codes"])})
+    mj = mj[: (24 if deep else 6)]
+
+    def mwork(x):
+        ip = os.path.join(tmp, "m%d.raw" % x["s"])
+        open(ip, "wb").write(x["data"])
+        sp = os.path.join(tmp, "m%d.json" % x["s"])
+        rc0, _so, se0, _dt = core.run_cli([ip] + x["mode"] + ["-S", sp, "-D", "json"], timeout=60)
+        if not os.path.exists(sp):
+            return None
+        st = _json.load(open(sp))
+        es = st.get("error_stats")
+        if not isinstance(es, dict) or "total_errors" not in es:
+            return None
+        if x["edit"] == "total_errors":
+            es["total_errors"] = int(es["total_errors"]) + 1
+        else:
+            es["unique_error_codes"] = list(es.get("unique_error_codes") or []) + ["999"]
+        sp2 = os.path.join(tmp, "m%de.json" % x["s"])
+        _json.dump(st, open(sp2, "w"))
+        out = []
+        for extra in ([], ["-m"]):
+            rc, _so, se, _dt = core.run_cli([ip] + x["mode"] + ["-i", sp2, "-E", str(x["ee"])] + extra, timeout=60)
+            out.append((rc, se.decode("utf8", "replace")))
+        return out
+    nmm = 0
+    for x, r in zip(mj, core.par_map(mwork, mj)):
+        if r is None:
+            continue
+        nmm += 1
+        for extra, (rc, se) in zip(("", "-m"), r):
+            distinct.add(("stats-mismatch", x["edit"], extra, rc if rc in (0, 1) else "N"))
+            if "panicked at" in se:
+                continue
+            if rc != x["ee"]:
+                chk.spec_violations.append({"stream": "cli-contract", "case": "stats-mismatch%s" % (" muted" if extra else ""), "mode": " ".join(x["mode"]), "edited": x["edit"],
+                                            "configured_exit": x["ee"], "exit": rc, "input": "(stream %d of seed %d, %s)" % (x["s"], seed, x["kind"]),
+                                            "stderr_tail": se[-300:],
+                                            "what": "a statistics file that disagrees with the run in its error section is not answered with the configured exit status"})
+    # ---- the modes that print no report (views; filtered data to stdout): the exit status still follows what was collected
     rj = []
     for s in range(ninputs):
         jb = next((j for j in jobs if j["s"] == s), None)
@@ -327,7 +373,25 @@ def run(tier, seed):
             except Exception:
                 st = None
         return rc, se.decode("utf8", "replace"), st
-    for x, (rc, se, st) in zip(rj, core.par_map(rwork, rj)):
+    rres = core.par_map(rwork, rj)
+    # the report-less run model (Model/SystemView.v run_reportless, extracted): exit status predicted from the input alone
+    def rl_line(x):
+        mode = x["mode"]
+        kind = {"rdh": "rdh", "its-readout-frames": "frames", "its-readout-frames-data": "data"}.get(mode[1], None) if mode[0] == "view" else "write"
+        flt = "-" if mode[0] == "view" else "link:%s" % mode[1]
+        cdps = "1000003" if "TOML" in mode else "-"
+        return "%s %s %s %d %s %s" % (kind, x["inp"], flt, x["ee"], cdps, x["data"].hex().upper() or "-")
+    rmodel = core.run_lines(core.FPMODEL, "reportless", [rl_line(x) for x in rj], shards=core.NCPU) if rj else []
+    for x, (rc, se, st), lm in zip(rj, rres, rmodel):
+        if isinstance(rc, int) and rc >= 0 and "panicked at" not in se and lm.startswith("exit="):
+            mm = dict(y.split("=", 1) for y in lm.split(" "))
+            # a run that stopped on a fatal error is compared on the exit status only (what is counted after the stop depends on the schedule)
+            if str(rc) != mm["exit"]:
+                chk.disagreements.append({"stream": "cli-contract", "mode": " ".join(x["mode"]) + " -E %d" % x["ee"], "input": x["inp"], "input_kind": x["kind"],
+                                          "impl_exit": rc, "model": lm[:120], "input_hex": x["data"].hex().upper()[:3000]})
+        elif isinstance(rc, int) and rc >= 0 and lm.startswith("UNRECOGNISED") != ("Init processing failed" in se) and not lm.startswith("SHORT"):
+            chk.disagreements.append({"stream": "cli-contract", "mode": " ".join(x["mode"]), "impl_exit": rc, "model": lm[:120], "input_kind": x["kind"]})
+    for x, (rc, se, st) in zip(rj, rres):
         if "panicked at" in se or not isinstance(rc, int) or rc < 0 or "Init processing failed" in se or st is None:
             continue
         es = st.get("error_stats", {})
@@ -342,7 +406,7 @@ def run(tier, seed):
                                         "what": "exit status is not the configured any-errors status although an error / fatal error was collected "
                                                 "(or is not 0 although none was), in a mode that prints no report"})
     shutil.rmtree(tmp, ignore_errors=True)
-    chk.add_stream("cli-contract", len(jobs) + len(sj) + len(rj), distinct, samples, distribution={"inputs": ninputs, "runs": len(jobs), "special_cases": len(sj), "report_less_runs": len(rj)})
+    chk.add_stream("cli-contract", len(jobs) + len(sj) + len(rj), distinct, samples, distribution={"inputs": ninputs, "runs": len(jobs), "special_cases": len(sj), "report_less_runs": len(rj), "stats_mismatch_inputs": nmm})
     chk.cov["rule"] = ("inputs: clean / corrupted (k errors) / mid-stream fatal offset / unknown system id / non-ALICE bytes; options: -E n, -m, "
                        "-w code lists incl. prefixes of each other (1,10,100,4,44,444), -e around small counts, custom checks cdps / triggers_pht "
                        "at truth and truth+-1; file and pipe; plus missing file, empty and short input and every invalid option combination. "
